@@ -1,1 +1,163 @@
-fn main() {}
+//! nschild: helper child process for C15 (report mode) and C16 (emit mode).
+//!
+//! The mode and the working directory of the case come through the *inherited*
+//! environment (`NSCHILD_MODE`, `NSCHILD_DIR`), i.e. outside the channels under test
+//! (argv, `cmd.env`, cwd, stdin, stdout, stderr).
+//!
+//! report mode: writes `<dir>/report.<n>` (n = number of earlier reports) as JSON:
+//!   pid, start time, every argument (hex), the whole environment (hex pairs), cwd (hex),
+//!   every stdin byte until EOF (hex). Written to a temporary name and renamed, so
+//!   existence == complete; existence is the spawn marker.
+//! emit mode: writes `<dir>/pid` ("<pid> <starttime>") first, then executes `<dir>/plan`:
+//!   p <bytes>            enlarge the pipes behind fd 1 and fd 2 (F_SETPIPE_SZ), errors ignored
+//!   w <fd> <off> <len>   write bytes [off, off+len) of out.bin (fd 1) / err.bin (fd 2)
+//!   s <ms>               sleep
+//!   c <fd>               close the descriptor
+//!   x <code>             exit with the code
+//!   k <signal>           die by the signal
+//! Write errors (EPIPE after the reader went away) are ignored: the helper keeps following
+//! its plan, like a child that does not care. It never forks.
+
+use std::ffi::OsString;
+use std::io::Read;
+use std::os::unix::ffi::{OsStrExt, OsStringExt};
+use std::path::{Path, PathBuf};
+
+fn hex(bytes: &[u8]) -> String {
+    const D: &[u8; 16] = b"0123456789abcdef";
+    let mut s = String::with_capacity(bytes.len() * 2);
+    for b in bytes {
+        s.push(D[(b >> 4) as usize] as char);
+        s.push(D[(b & 15) as usize] as char);
+    }
+    s
+}
+
+fn start_time() -> u64 {
+    // field 22 of /proc/self/stat; fields after the ")" that closes the command name
+    let text = std::fs::read_to_string("/proc/self/stat").unwrap_or_default();
+    let rest = text.rsplit_once(')').map_or("", |(_, r)| r);
+    rest.split_ascii_whitespace().nth(19).and_then(|s| s.parse().ok()).unwrap_or(0)
+}
+
+fn write_atomically(path: &Path, bytes: &[u8]) {
+    let tmp = PathBuf::from(format!("{}.tmp{}", path.display(), std::process::id()));
+    if std::fs::write(&tmp, bytes).is_ok() {
+        let _ = std::fs::rename(&tmp, path);
+    }
+}
+
+fn close_inherited() {
+    // The harness's result pipe and similar descriptors must not be kept open by us.
+    let r = unsafe { libc::syscall(libc::SYS_close_range, 3u32, u32::MAX, 0u32) };
+    if r != 0 {
+        for fd in 3..1024 {
+            unsafe { libc::close(fd) };
+        }
+    }
+}
+
+fn report(dir: &Path) -> i32 {
+    let args: Vec<String> = std::env::args_os().map(|a| hex(a.as_bytes())).collect();
+    let mut env: Vec<(Vec<u8>, Vec<u8>)> = std::env::vars_os()
+        .map(|(k, v): (OsString, OsString)| (k.into_vec(), v.into_vec()))
+        .collect();
+    env.sort();
+    let env: Vec<[String; 2]> = env.iter().map(|(k, v)| [hex(k), hex(v)]).collect();
+    let cwd = std::env::current_dir().map(|p| hex(p.as_os_str().as_bytes())).ok();
+    let mut stdin = Vec::new();
+    let stdin_err = std::io::stdin().lock().read_to_end(&mut stdin).err().map(|e| e.to_string());
+    let doc = serde_json::json!({
+        "pid": std::process::id(),
+        "start": start_time(),
+        "argc": args.len(),
+        "args": args,
+        "env": env,
+        "cwd": cwd,
+        "stdin": hex(&stdin),
+        "stdin_error": stdin_err,
+    });
+    let mut n = 0u32;
+    while dir.join(format!("report.{n}")).exists() {
+        n += 1;
+    }
+    write_atomically(&dir.join(format!("report.{n}")), doc.to_string().as_bytes());
+    0
+}
+
+fn write_all(fd: i32, mut buf: &[u8]) {
+    while !buf.is_empty() {
+        let n = unsafe { libc::write(fd, buf.as_ptr().cast(), buf.len()) };
+        if n < 0 {
+            if std::io::Error::last_os_error().kind() == std::io::ErrorKind::Interrupted {
+                continue;
+            }
+            return; // EPIPE / EBADF: nobody listens any more, carry on with the plan
+        }
+        buf = &buf[n as usize..];
+    }
+}
+
+fn emit(dir: &Path) -> i32 {
+    write_atomically(&dir.join("pid"), format!("{} {}\n", std::process::id(), start_time()).as_bytes());
+    let plan = std::fs::read_to_string(dir.join("plan")).unwrap_or_default();
+    let out = std::fs::read(dir.join("out.bin")).unwrap_or_default();
+    let err = std::fs::read(dir.join("err.bin")).unwrap_or_default();
+    for line in plan.lines() {
+        let mut it = line.split_ascii_whitespace();
+        let Some(cmd) = it.next() else { continue };
+        let mut num = || it.next().and_then(|s| s.parse::<u64>().ok()).unwrap_or(0);
+        match cmd {
+            "p" => {
+                let size = num() as libc::c_int;
+                unsafe {
+                    libc::fcntl(1, libc::F_SETPIPE_SZ, size);
+                    libc::fcntl(2, libc::F_SETPIPE_SZ, size);
+                }
+            }
+            "w" => {
+                let fd = num() as i32;
+                let off = num() as usize;
+                let len = num() as usize;
+                let src = if fd == 1 { &out } else { &err };
+                let end = (off + len).min(src.len());
+                if off < end {
+                    write_all(fd, &src[off..end]);
+                }
+            }
+            "s" => std::thread::sleep(std::time::Duration::from_millis(num())),
+            "c" => {
+                unsafe { libc::close(num() as i32) };
+            }
+            "x" => return num() as i32,
+            "k" => {
+                let sig = num() as i32;
+                unsafe {
+                    libc::signal(sig, libc::SIG_DFL);
+                    libc::kill(libc::getpid(), sig);
+                }
+                // a catchable signal that somehow did not end us: distinctive exit code
+                std::thread::sleep(std::time::Duration::from_millis(200));
+                return 98;
+            }
+            _ => {}
+        }
+    }
+    0
+}
+
+fn main() {
+    close_inherited();
+    unsafe { libc::signal(libc::SIGPIPE, libc::SIG_IGN) };
+    let mode = std::env::var_os("NSCHILD_MODE").unwrap_or_default();
+    let Some(dir) = std::env::var_os("NSCHILD_DIR").map(PathBuf::from) else {
+        std::process::exit(97);
+    };
+    let code = match mode.as_bytes() {
+        b"report" => report(&dir),
+        b"emit" => emit(&dir),
+        _ => 97,
+    };
+    // _exit: do not run anything else (no buffered stdio is used above)
+    unsafe { libc::_exit(code) };
+}
